@@ -30,7 +30,7 @@ type c14Step struct {
 
 func TestVerif_C14_Stores(t *testing.T) {
 	acct := vacct.Get("C14")
-	vacct.RapidCheck(t, vacct.N(8, 400), func(rt *rapid.T) {
+	vacct.RapidCheck(t, vacct.N(8, 2000), func(rt *rapid.T) {
 		// small key / reference windows in most sessions, so that both slide within a few messages
 		W, R := 100, 100
 		var opts *secretstore.NewSecretStoreOptions
